@@ -725,6 +725,11 @@ def oracle_fitted_state(case, ctx):
             "update_predict": lambda e: e.update_predict(y_new.copy(), SlidingWindowSplitter(fh=[1, 2], window_length=1)),
             "update_predict_single": lambda e: e.update_predict_single(y_new.copy(), [1, 2]),
             "score": lambda e: e.score(y_new.iloc[:2], fh=[1, 2]),
+            # the same entry points with their optional arguments left out: the fitted-state
+            # guard comes before any argument checking
+            "predict_without_fh": lambda e: e.predict(),
+            "score_without_fh": lambda e: e.score(y_new.iloc[:2]),
+            "update_predict_single_without_fh": lambda e: e.update_predict_single(y_new.copy()),
         }
         if spec["kind"] == "pipeline":
             calls["transform"] = lambda e: e.transform(y.copy())
@@ -807,7 +812,7 @@ def oracle_fitted_state(case, ctx):
         discs += guard(c, "on clone of fitted")
     # the fitted estimator still answers
     for name, fn in calls.items():
-        if name in ("score",):
+        if name in ("score",) or name.endswith("_without_fh"):
             continue
         r2 = sut(fn, est)
         if isinstance(r2, Raised) and r2.is_a(NotFittedError):
